@@ -546,6 +546,7 @@ impl Net {
                     lo + g.plan.rng.below(steps + 1) * MS
                 };
                 let until = t + d.max(MS);
+                self.log.note(format!("transport blocked: {src} until {until}"));
                 if let Some(ep) = g.endpoints.get_mut(&src) {
                     ep.blocked_until = until;
                     if let Some(cx) = cx {
@@ -641,6 +642,12 @@ impl Net {
                 Poll::Pending
             }
         }
+    }
+
+    /// Until when the transport of `addr` refuses datagrams (0: not blocked).
+    pub fn blocked_until(&self, addr: SocketAddr) -> Us {
+        let g = self.inner.lock();
+        g.endpoints.get(&addr).map(|e| e.blocked_until).unwrap_or(0)
     }
 
     /// Non-blocking receive for scripted endpoints.
